@@ -72,10 +72,9 @@ def to_nl(e):
         return ('count', [to_nl(a) for a in e[1]])
     if k in ('le', 'ge', 'lt', 'gt', 'eq'):
         return (k, to_nl(e[1]), to_nl(e[2]))
-    if k == 'and':
-        return ('forall', [to_nl(a) for a in e[1]])
-    if k == 'or':
-        return ('exists', [to_nl(a) for a in e[1]])
+    if k in ('and', 'or'):          # the NL format needs >= 3 arguments for forall/exists: two arguments = the binary operator
+        xs = [to_nl(a) for a in e[1]]
+        return (k, xs[0], xs[1]) if len(xs) == 2 else ({'and': 'forall', 'or': 'exists'}[k], xs)
     if k == 'not':
         return ('not', to_nl(e[1]))
     raise ValueError(k)
@@ -83,9 +82,10 @@ def to_nl(e):
 
 # ------------------------------------------------------------------ generator of fragment models
 class FragGen:
-    def __init__(self, rng):
+    def __init__(self, rng, tame=False):
         self.rng = rng
-        self.vars = []      # (lb, ub, isint)
+        self.tame = tame    # avoid the inputs the reference converter flags as preprocessing shortcuts (sign-determined abs argument,
+        self.vars = []      #   comparison rhs outside the body's range, nested and/or, constant comparisons, binary var == const)
 
     def make_vars(self):
         rng = self.rng
@@ -95,8 +95,10 @@ class FragGen:
             lo = F(rng.rint(-6, 4), rng.choice([1, 2]))
             self.vars.append((lo, lo + F(rng.rint(1, 8), rng.choice([1, 2])), False))
         for _ in range(nint):
-            if rng.chance(1, 3):
+            if rng.chance(1, 3 if not self.tame else 5):
                 self.vars.append((F(0), F(1), True))
+            elif self.tame:
+                self.vars.append((F(-rng.rint(1, 3)), F(rng.rint(1, 3)), True))
             else:
                 lo = rng.rint(-3, 2)
                 self.vars.append((F(lo), F(lo + rng.rint(1, 4)), True))
@@ -130,17 +132,28 @@ class FragGen:
             return ('count', [self.log(d - 1) for _ in range(rng.rint(2, 3))])
         return ('add', [self.num(d - 1, intonly), ('c', F(rng.rint(-2, 3)))])
 
-    def log(self, d):
+    def log(self, d, parent=None):
         rng = self.rng
         if d <= 0 or rng.chance(1, 2):
             rel = rng.choice(['le', 'ge', 'lt', 'gt', 'eq', 'le', 'ge'])
+            if self.tame:
+                wide = [i for i in self.ints if self.vars[i][1] - self.vars[i][0] >= 2] or self.ints
+                a = rng.choice(wide)
+                if len(wide) > 1 and rng.chance(1, 2):
+                    b = rng.choice([i for i in wide if i != a])
+                    lhs = ('v', a) if rng.chance(2, 3) else ('add', [('v', a), ('c', F(rng.rint(-1, 1)))])
+                    return (rel, lhs, ('v', b))
+                lo, hi = self.vars[a][0], self.vars[a][1]
+                return (rel, ('v', a), ('c', F(rng.rint(int(lo), int(hi)))))
             return (rel, self.num(max(d - 1, 0), True), self.num(0, True) if rng.chance(1, 2) else ('c', F(rng.rint(-2, 4))))
         k = rng.below(3)
+        if self.tame and ((k == 0 and parent == 'and') or (k == 1 and parent == 'or')):
+            k = 2
         if k == 0:
-            return ('and', [self.log(d - 1) for _ in range(rng.rint(2, 3))])
+            return ('and', [self.log(d - 1, 'and') for _ in range(rng.rint(2, 3))])
         if k == 1:
-            return ('or', [self.log(d - 1) for _ in range(rng.rint(2, 3))])
-        return ('not', self.log(d - 1))
+            return ('or', [self.log(d - 1, 'or') for _ in range(rng.rint(2, 3))])
+        return ('not', self.log(d - 1, 'not'))
 
     def model(self):
         rng = self.rng
@@ -223,8 +236,8 @@ def canon_def(d):
     f = d.split(';')
     if len(f) >= 4 and f[2] == 'Affine':
         f[3] = canon_terms(f[3])
-    if len(f) >= 5 and f[2] == 'CondLin':
-        f[4] = canon_terms(f[4])
+    if len(f) >= 4 and f[2].startswith('CondLin'):
+        f[3] = canon_terms(f[3])
     return ';'.join(f)
 
 
@@ -251,8 +264,6 @@ def real_side(exe, stub, n0, acc, opts):
                 continue
             t = cs.split(' ')
             kind, fields = t[3], t[4:]
-            if kind.startswith('CondLin'):
-                kind, fields = 'CondLin', [kind[7:]] + fields
             defs.append((int(t[1]), canon_def(';'.join([t[1], t[2], kind] + fields))))
             defined.add(int(t[1]))
     consts = {i: v[0] for i, v in enumerate(vsA) if i >= n0 and i not in defined and v[0] is not None and v[0] == v[1]}
@@ -298,3 +309,165 @@ def parse_conv(ans):
             'V': [v for v in sec['|V|'].split(';') if v], 'D': [canon_def(d) for d in sec['|D|'].split('|') if d],
             'R': [r for r in sec['|R|'].split('|') if r], 'O': sec['|O|'],
             'C': sorted(canon_row(c.strip()) for c in sec['|C|'].split(' ; ') if c.strip())}
+
+
+def merge_defs(r):
+    """definitions of the real flat model in creation order (= result-variable order), constants as `res;Const;q` (variables carry
+    no context in the log, so the context of a constant is not compared)"""
+    d = {int(t.split(';')[0]): t for t in r['D']}
+    for v, c in r['consts'].items():
+        d[v] = '%d;Const;%s' % (v, q2s(c))
+    return [d[k] for k in sorted(d)]
+
+
+def strip_const_ctx(ds):
+    out = []
+    for t in ds:
+        f = t.split(';')
+        out.append('%s;Const;%s' % (f[0], f[3]) if len(f) >= 4 and f[2] == 'Const' else t)
+    return out
+
+
+# ------------------------------------------------------------------ the stream
+EPS_Q = '1/8192'
+EPS_OPT = 'cvt:cmp:eps=0.0001220703125'
+SECTIONS = ('N', 'D', 'M', 'V', 'C', 'O')
+
+
+def compare(c, r):
+    """sections on which the reference converter's answer `c` and the real converter's canonical output `r` differ"""
+    diffs = []
+    if c['N'] != r['N']:
+        diffs.append('N')
+    if strip_const_ctx(c['D']) != merge_defs(r):
+        diffs.append('D')
+    if c['M'] != r['M']:
+        diffs.append('M')
+    if c['V'] != r['V']:
+        diffs.append('V')
+    if c['C'] != r['C']:
+        diffs.append('C')
+    if c['O'] != r['O']:
+        diffs.append('O')
+    return diffs
+
+
+def diff_class(c, r, diffs):
+    """coarse class of a disagreement (for the report): which definition kinds / row kinds differ"""
+    if 'D' in diffs or 'N' in diffs:
+        a, b = strip_const_ctx(c['D']), merge_defs(r)
+        kinds = set()
+        for x, y in zip(a, b):
+            if x != y:
+                fx, fy = x.split(';'), y.split(';')
+                kx = fx[2] if len(fx) > 2 and fx[1] != 'Const' else 'Const'
+                ky = fy[2] if len(fy) > 2 and fy[1] != 'Const' else 'Const'
+                if kx == ky or (kx.startswith('CondLin') and ky.startswith('CondLin')):
+                    what = 'ctx' if fx[2:] == fy[2:] else ('cmp-normalisation' if kx.startswith('CondLin') else 'fields')
+                    kinds.add('%s:%s' % (kx[:7] if kx.startswith('CondLin') else kx, what))
+                else:
+                    kinds.add('kind:%s/%s' % (kx, ky))
+                break
+        if len(a) != len(b) and not kinds:
+            kinds.add('def-count')
+        return 'flat:' + ','.join(sorted(kinds))
+    if 'V' in diffs or 'M' in diffs:
+        return 'delivered:var-bounds-or-aux' + ('+rows' if 'C' in diffs else '')
+    if 'C' in diffs:
+        return 'delivered:rows'
+    return 'delivered:objective'
+
+
+def oracle_says(m, grids, rd, budget_s=8.0):
+    """exact projection oracle of the end-to-end stage on the REAL delivered model: 'ok' | 'fail:<dir>' | 'na:<why>'"""
+    import c01
+    cl = c01.classify_run(rd)
+    if cl[0] != 'delivered':
+        return 'na:' + cl[0]
+    D = cl[1]
+    if D.unsupported or D.inexact:
+        return 'na:unsupported'
+    res = c01.check_equiv(m, grids, D, {'eps': EPS_Q, 'sos': 0}, budget_s=budget_s)
+    if res['failures']:
+        return 'fail:' + res['failures'][0]['dir']
+    return 'ok'
+
+
+def run_refconv(ck, drv, exe, n_models, seed_base, wd, log=None):
+    """compare `convert` with the real converter on n_models generated fragment models x {native, linear}.
+    -> stats dict; violations are reported through ck by the caller from stats['violations']"""
+    import collections
+    st = {'models': 0, 'drawn': 0, 'compared': 0, 'agree': 0, 'shortcut': 0, 'outside': 0, 'ref_refusal': 0, 'real_refusal': 0,
+          'refusal_agree': 0, 'disagree': 0, 'classes': collections.Counter(), 'examples': {}, 'violations': [], 'drift': 0,
+          'by_acc': {'native': [0, 0], 'linear': [0, 0]}, 'bad': 0}
+    stub = os.path.join(wd, 'rc')
+    k = 0
+    while st['models'] < n_models and st['drawn'] < 6 * n_models:
+        rng = Rng(seed_base * 100003 + k)
+        k += 1
+        st['drawn'] += 1
+        g = FragGen(rng, tame=(k % 4 != 0))
+        cons, lcons, obj = g.model()
+        m, grids, line = build(g, cons, lcons, obj)
+        answers = {}
+        skip = None
+        for accn in ('native', 'linear'):
+            c = parse_conv(drv.ask('%s eps=%s acc=%s' % (line, EPS_Q, accn)))
+            answers[accn] = c
+            if c['kind'] == 'outside':
+                skip = 'outside'
+            elif c['kind'] in ('bad', 'bad-op'):
+                skip = 'bad'
+            elif c['kind'] == 'conv' and c['shortcut']:
+                skip = 'shortcut'
+        if skip:
+            st[skip] += 1
+            if skip == 'bad':
+                st['violations'].append(('refconv-driver', 'drv_c01 convert answered %r on: %s' % (answers['native'].get('what'), line)))
+            continue
+        st['models'] += 1
+        m.write(stub, names=False)
+        if m.perm != list(range(len(m.vars))):
+            st['violations'].append(('refconv-harness', 'nlgen permuted the variables of a fragment model: ' + line))
+            continue
+        for accn, acc in (('native', NATIVE), ('linear', LINEAR)):
+            c = answers[accn]
+            r = real_side(exe, stub, len(m.vars), acc, [EPS_OPT])
+            real_ref = (not r['okA']) or (not r['okD'])
+            if c['kind'] == 'refusal' or real_ref:
+                st['ref_refusal'] += c['kind'] == 'refusal'
+                st['real_refusal'] += real_ref
+                if c['kind'] == 'refusal' and real_ref:
+                    st['refusal_agree'] += 1
+                    continue
+                cls = 'refusal:only-%s' % ('reference' if c['kind'] == 'refusal' else 'real')
+                diffs = ['refusal']
+            else:
+                st['compared'] += 1
+                st['by_acc'][accn][1] += 1
+                diffs = compare(c, r)
+                if not diffs:
+                    st['agree'] += 1
+                    st['by_acc'][accn][0] += 1
+                    continue
+                cls = diff_class(c, r, diffs)
+            st['disagree'] += 1
+            verdict = oracle_says(m, grids, r['rd']) if r.get('okD') else 'na:real-refusal'
+            key = '%s|%s|oracle=%s' % (accn, cls, verdict.split(':')[0])
+            st['classes'][key] += 1
+            ex = {'line': '%s eps=%s acc=%s' % (line, EPS_Q, accn), 'diffs': diffs, 'oracle': verdict}
+            for sct in diffs:
+                if sct in ('D',):
+                    ex['D_ref'], ex['D_real'] = strip_const_ctx(c['D']), merge_defs(r)
+                elif sct in ('V', 'C', 'O', 'N', 'M'):
+                    ex[sct + '_ref'], ex[sct + '_real'] = c.get(sct), r.get(sct)
+            st['examples'].setdefault(key, ex)
+            if verdict.startswith('fail'):
+                # the real delivered model is wrong on this input: property failure (the end-to-end stage reports it with its own
+                # minimisation; here it is recorded with the reference converter's expected rows)
+                st['violations'].append(('refconv-property', 'real delivered model fails the exact oracle (%s) and differs from the reference '
+                                         'converter: %s' % (verdict, ex['line'])))
+            else:
+                st['drift'] += 1
+    st['classes'] = dict(st['classes'])
+    return st
